@@ -27,6 +27,7 @@
    Executable definitions only. *)
 From Coq Require Import List ZArith NArith QArith String Ascii Bool.
 From Qryn Require Import lib.Strs model.Sql.
+From Qryn Require model.LogqlTemplate.      (* format_eval: ClickHouse format(pattern, s0, s1, ...) *)
 Import ListNotations.
 Open Scope string_scope.
 
@@ -575,6 +576,16 @@ Section EVAL.
               | None => None end
             | _ => None end
           | _, _ => None end
+        else None
+      (* LineFormatPlanner: format('<pattern>', labels['a'], ...) - "formats a pattern string with the strings listed in the
+         arguments; the pattern can contain replacement fields surrounded by curly braces {}; anything not contained in braces
+         is literal text, copied unchanged; a brace character in the literal text is escaped by doubling: {{ and }}; a field
+         name is a number (starting from zero)" (model/LogqlTemplate.v format_eval; None = an exception) *)
+      | [Raw t1; StrV f; Raw t2; Sep s2 args; Raw t3] =>
+        if String.eqb sep "" && String.eqb t1 "format(" && String.eqb t2 ", " && String.eqb s2 ", " && String.eqb t3 ")" then
+          match map_opt (fun a => match ev a g with Some (VStr v) => Some v | _ => None end) args with
+          | Some vs => option_map VStr (LogqlTemplate.format_eval f vs)
+          | None => None end
         else None
       | _ => None
       end
